@@ -143,6 +143,7 @@ fn clean_mrow_children_restructure_pass<'a>(old_children: &[Element<'a>]) -> Opt
                     close.set_text(")");
                     let mrow = create_mathml_element(&doc, "mrow");
                     mrow.append_children(&[open,state,close]);
+                    add_attrs(mrow, &child.attributes());      // the mrow stands for the token: it keeps the token's id, etc.
                     new_children.push(mrow);
                     i += 1;
                     changed = true;
